@@ -336,6 +336,9 @@ CATALOG: List[Cfg] = [
     # a single agent: every per-agent axis has length 1
     _c("lbf-5x1x1-T3", "lbf", "LevelBasedForaging(G.lbf.RandomGenerator(5, 1, 1, fov=2, force_coop=False), time_limit=3)",
        kind="awkward", keys_quick=2, keys_thorough=4, time_limit=3),
+    # food levels (up to 3 x max_agent_level = 15) far above the grid size: bounds that take a maximum over sizes
+    _c("lbf-6x3x2-lvl5-T2", "lbf", "LevelBasedForaging(G.lbf.RandomGenerator(6, 3, 2, fov=6, max_agent_level=5, "
+       "force_coop=True), time_limit=2)", kind="awkward", keys_quick=3, keys_thorough=6, time_limit=2),
     _c("lbf-default", "lbf", "LevelBasedForaging()", kind="default", depth=1, depth_thorough=2, keys_quick=1,
        keys_thorough=2, time_limit=100),
     # ---------------- Maze
